@@ -66,6 +66,13 @@ func (wf *WALFileType) Replay(dryRun bool) error {
 		if continueRead = fullRead(err); !continueRead {
 			break // Break out of read loop
 		}
+		if err != nil {
+			// Not a message ID: the log is damaged from here on. There is nothing to resynchronize on
+			// (messages carry no marker), so stop reading and replay the transactions that precede the damage
+			// instead of interpreting the following bytes as messages.
+			log.Warn("Unknown message id at this position of the WAL, ignoring the rest of the file: %v", err)
+			break
+		}
 		switch msgID {
 		case TGDATA:
 			// Read a TGData
@@ -74,25 +81,32 @@ func (wf *WALFileType) Replay(dryRun bool) error {
 				return fmt.Errorf("seek error: %w", err)
 			}
 			tgID, tgSerialized, err := wf.readTGData()
-			tgData[tgID] = tgSerialized
-			if continueRead = fullRead(err); !continueRead {
+			if err != nil {
+				// a partial or damaged record (short read, insane length, checksum mismatch): stop reading
+				// and replay what precedes it. Registering the failed read under TG ID 0 made a second damaged
+				// record look like duplicate TG data, which abandoned the intact transactions before it.
+				fullRead(err)
+				continueRead = false
 				break // Break out of switch
 			}
-			// give up Replay if there is already a TG data location in this WAL
+			// a second record for a TG ID that was already read means the log is damaged from here on:
+			// replay what precedes it
 			if _, ok := offsetTGDataInWAL[tgID]; ok {
-				log.Error(io.GetCallerFileContext(0) + ": Duplicate TG Data in WAL")
-				return wal.ReplayError{
-					Msg:  fmt.Sprintf("Duplicate TG Data in WAL. tgID=%d", tgID),
-					Cont: true,
-				}
+				log.Error(io.GetCallerFileContext(0) + ": Duplicate TG Data in WAL, ignoring the rest of the file")
+				continueRead = false
+				break // Break out of switch
 			}
+			tgData[tgID] = tgSerialized
 			// log.Info("Successfully read past TG data for tgID: %v", tgID)
 			// Save the offset of this TG Data for the second pass
 			offsetTGDataInWAL[tgID] = offset
 		case TXNINFO:
 			// Read a TXNInfo
 			TGID, destination, txnStatus, err := wf.readTransactionInfo()
-			if continueRead = fullRead(err); !continueRead {
+			if err != nil {
+				// partial or malformed record: stop reading, replay what precedes it
+				fullRead(err)
+				continueRead = false
 				break // Break out of switch
 			}
 			switch destination {
